@@ -82,6 +82,9 @@ def showConf (σ : Conf) (fs : List (FsmHdr × FsmEntries)) : String :=
 
 def stmtText (s : Stmt) : String := ((reprStr s).replace "\n" " ")
 
+deriving instance BEq for Expr
+deriving instance BEq for Stmt
+
 def handleFProc : Sexp → Option String
   | .list (.atom "fproc" :: c :: ini :: rl :: .atom dom :: .list [.atom "rst", r] :: st :: .list (.atom "fprog" :: items) :: steps) => do
       let ctx ← parseCtx c
@@ -95,7 +98,7 @@ def handleFProc : Sexp → Option String
         | _ => none
       let lw := lowerList ctx (lowerProgram dom prog)
       let fs := FProg.listFsms prog
-      let same := reprStr stmt.prune == reprStr lw.prune
+      let same := stmt.prune == lw.prune
       let ok := FProg.listOk ctx none prog
       let iok := fs.all fun f => Env.val inits f.1.reg == (fsmInitCode f.1 f.2 : Int)
       let rstOn := match rst with | some r => r % 2 == 1 | none => false
